@@ -102,11 +102,18 @@ impl Zone {
                 "@".to_string()
             } else {
                 let labels_to_keep = name.labels.len() - apex.labels.len();
-                DomainName {
+                let relative = DomainName {
                     labels: Vec::from(&name.labels[..labels_to_keep]),
                     len: name.len - apex.len,
                 }
-                .to_dotted_string()
+                .to_dotted_string();
+
+                // a lone `@` would be read back as the apex
+                if relative == "@" {
+                    name.to_dotted_string()
+                } else {
+                    relative
+                }
             }
         };
 
